@@ -222,8 +222,8 @@ def _cli_seed(args):
 def c16(run, scratch):
     cfg = os.path.join(scratch, 'sess.cfg')
     pool = set(POOL)
-    pool3 = {1, 6, 13, 22, 29, 30, 31, 32} if run.tier == 'quick' else {1, 2, 3, 4, 6, 8, 10, 12, 13, 14, 17, 18, 21, 22, 24, 25, 26, 27, 28, 29, 30, 31, 32, 33}
-    tlc.write_cfg(cfg, spec='Spec', constants={'Pool': pool, 'Pool3': pool3, 'MaxLen': 3 if run.tier == 'quick' else 4},
+    pool3 = {1, 6, 13, 22, 29, 30, 31, 32} if run.tier == 'quick' else {1, 2, 3, 4, 6, 13, 14, 21, 22, 27, 29, 30, 31, 32}
+    tlc.write_cfg(cfg, spec='Spec', constants={'Pool': pool, 'Pool3': pool3, 'MaxLen': 3},
                   invariants=['Export'], properties=['TablesConstant'])
     materialise_trees(os.path.join(scratch, 'trees'))
     r = tlc.run('AsmSession', cfg, workers=1, heap='4g', timeout=3600)
@@ -290,7 +290,7 @@ def c16(run, scratch):
     run.coverage['distinct_call_inputs_baselined'] = len(base)
     run.coverage['cli_hash_seed_runs'] = len(jobs)
     run.coverage['exhaustive'] = True
-    run.coverage['rule'] = ('TLC enumerates every history of <= 3 (4) calls over 30 interfering programs (five of them file trees, one tree called without and with the directory a nested include needs; with the same file name in several searched directories, assembled with ONE shared include-directory list object that no call may change) (incl. pairs that share the text of every line but not its meaning) (same names as constant / label / register alias in different programs, '
+    run.coverage['rule'] = ('TLC enumerates every history of <= 3 calls over 30 interfering programs (five of them file trees, one tree called without and with the directory a nested include needs; with the same file name in several searched directories, assembled with ONE shared include-directory list object that no call may change) (incl. pairs that share the text of every line but not its meaning) (same names as constant / label / register alias in different programs, '
                             'failures in parse / constants / immediates / encode / error directive, compressible layouts) x compress x dictionary mode (not passed / fresh / the '
                             'objects of the previous call); the third and later calls range over a sub-pool; every history is replayed in one interpreter (thousands back to back) '
                             'and each call compared with the same call alone in a fresh interpreter; module tables digested after every call; every program run through the CLI '
